@@ -1,0 +1,70 @@
+//go:build verif
+
+package net
+
+import (
+	"crypto/tls"
+	"encoding/hex"
+	"net"
+)
+
+// Read-only wrappers around unexported functions and constants of the transport, for the verification
+// harness in /verif (harness/net).  Nothing here changes behaviour; the file is only compiled with -tags verif.
+
+// VerifMaxBuffLen is the frame size limit enforced by readMsg.
+func VerifMaxBuffLen() int { return maxBuffLen }
+
+// VerifShouldHaveTopic is the topic presence table consulted by readMsg.
+func VerifShouldHaveTopic(msgType uint8) bool { return shouldHaveTopic[MsgType(msgType)] }
+
+// VerifReadMsg is readMsg: one frame from the connection.
+func VerifReadMsg(conn net.Conn) (msgType uint8, topic []byte, data []byte, err error) {
+	t, topic, data, err := readMsg(conn)
+	return uint8(t), topic, data, err
+}
+
+// VerifSendFrame is remoteParty.send on the given established connection: the frame writer exactly as the
+// per-destination writer goroutine invokes it.  It reports whether the writer kept the connection (true) or
+// closed and dropped it after a write error (false).
+func VerifSendFrame(conn *tls.Conn, msgType uint8, topic []byte, data []byte, reportErr func(string, ...interface{})) bool {
+	rp := &remoteParty{conn: conn, reportErr: reportErr, endpoint: "verif"}
+	rp.send(&outMsg{msgType: MsgType(msgType), topic: topic, data: data})
+	return rp.conn != nil
+}
+
+// VerifAuthenticateConnection is authenticateConnection: the decision which registered node, if any, a freshly
+// accepted connection is attributed to.
+func VerifAuthenticateConnection(p2id map[string]uint16, conn net.Conn, l Logger) (string, uint16, bool) {
+	return authenticateConnection(participant2ID(p2id), conn, l)
+}
+
+// VerifHandleConn is handleConn: authentication followed by the frame reading loop of one accepted connection.
+func VerifHandleConn(p2id map[string]uint16, conn net.Conn, inMsgs chan InMsg, stopFlag *uint32, l Logger) {
+	handleConn(participant2ID(p2id), conn, inMsgs, stopFlag, l)
+}
+
+// VerifExtractTLSBinding is extractTLSBinding: the exporter value both ends derive for one TLS connection.
+func VerifExtractTLSBinding(conn net.Conn) []byte { return extractTLSBinding(conn) }
+
+// VerifLookupKey is the key under which authenticateConnection looks a (domain, identity) pair up in the table.
+func VerifLookupKey(domain string, identity []byte) string {
+	return hex.EncodeToString(sha256Digest([]byte(domain), identity))
+}
+
+// VerifQueueLen reports how many messages wait in the queue of destination dst (-1: no such destination).
+func (parties SocketRemoteParties) VerifQueueLen(dst int) int {
+	p, exists := parties[dst]
+	if !exists {
+		return -1
+	}
+	return len(p.msgs)
+}
+
+// VerifQueueCap reports the capacity of the queue of destination dst (-1: no such destination).
+func (parties SocketRemoteParties) VerifQueueCap(dst int) int {
+	p, exists := parties[dst]
+	if !exists {
+		return -1
+	}
+	return cap(p.msgs)
+}
